@@ -5,6 +5,7 @@ import (
 	"io"
 	"os"
 	"sort"
+	"strings"
 
 	"deps.dev/util/resolve"
 	"deps.dev/util/resolve/schema"
@@ -15,6 +16,8 @@ import (
 // Maintenance modes of the binary (not used by ./check):
 //
 //	c06 encode <name> <version> < universe.txt     schema notation → one op line on stdout
+//	c06 decode < ops.txt                           op lines → root and universe in schema notation
+//	c06 shrink <clause> < op.txt                   delta-debug the universe while the clause still fails
 //	c06 testdata-corpus                             npm/testdata universes, all roots → corpus records on stdout
 func tool(args []string) bool {
 	switch args[0] {
@@ -38,6 +41,32 @@ func tool(args []string) bool {
 		t, _ := universe.DecodeTable(tb)
 		fmt.Println(opLine(tb, body, t, args[1], args[2]))
 		return true
+	case "decode":
+		// c06 decode < file with op lines: prints root and universe text of each
+		b, _ := io.ReadAll(os.Stdin)
+		for _, line := range strings.Split(string(b), "\n") {
+			if cd, err := decodeCase(strings.TrimSpace(line), ""); err == nil {
+				fmt.Printf("root %s@%s\n%s\n", cd.root[0], cd.root[1], cd.u.Text())
+			}
+		}
+		return true
+	case "shrink":
+		// c06 shrink <clause> < file with one op line: prints the shrunk op line and universe
+		b, _ := io.ReadAll(os.Stdin)
+		cd, err := decodeCase(strings.TrimSpace(string(b)), "")
+		if err != nil {
+			fmt.Fprintln(os.Stderr, err)
+			os.Exit(2)
+		}
+		su, sn, sv := shrink(cd.u, cd.root[0], cd.root[1], args[1])
+		tb, body, ok := universe.NpmEncode(su)
+		if !ok {
+			os.Exit(2)
+		}
+		t, _ := universe.DecodeTable(tb)
+		fmt.Println(opLine(tb, body, t, sn, sv))
+		fmt.Fprintf(os.Stderr, "root %s@%s\n%s", sn, sv, su.Text())
+		return true
 	case "testdata-corpus":
 		tds, err := testdataUniverses()
 		if err != nil {
@@ -51,9 +80,6 @@ func tool(args []string) bool {
 		sort.Strings(names)
 		for _, n := range names {
 			u := tds[n]
-			if u.HasBundle() {
-				continue
-			}
 			tb, body, ok := universe.NpmEncode(u)
 			if !ok {
 				continue
